@@ -528,3 +528,5 @@ def run(pm, ctx):
     from ..conddrift import run_decisions
     from ..ownership import OWN
     run_decisions(pm, ctx, 'C01-RD', OWN['C01'])
+    from .. import exprdrift
+    exprdrift.run(pm, ctx, 'C01-RE', OWN['C01'])
